@@ -3,6 +3,7 @@ import CedarVerif.Lemmas.TypecheckSound2
 import CedarVerif.Lemmas.TypecheckPolicy
 import CedarVerif.Lemmas.TypecheckSIP
 import CedarVerif.Lemmas.TypecheckSIP2
+import CedarVerif.Lemmas.TypecheckPSound
 import CedarVerif.Thm.C11
 /-
 C03 — strict validation is sound (and not vacuous).
@@ -11,7 +12,7 @@ Model: `Cedar.typeOf` (Cedar/Validation/Typecheck.lean), the mirror of `SingleEn
 permissive mode, tied to the Rust typechecker by the differential run of `./check C03` (per policy and request
 environment, both modes, plus the impossible-policy flag).
 
-FULL STATEMENT: `typeOf_sound` below (a `def … : Prop`, all expressions, both modes).
+FULL STATEMENT: `typeOf_sound` below (a `def … : Prop`, all expressions, both modes); `PermissiveSoundFull` is its permissive half.
 
 PROVED (0): `typeOf_sound_strict` — THE FULL STATEMENT WITH `m := .strict`, for every expression all of whose slots have a
 type in the environment (`SlotsLinked`); it is (1) plus `inFragment2_of` (distinct record keys + linked slots ⇒ fragment).
@@ -36,10 +37,29 @@ PROVED (2): `typeOf_sound_partialM` — the statement for BOTH modes on `InFragm
     construct as in (1), except that an `if` (typechecked in both branches) has a syntactically flat branch (boolean / long /
     string kind) and a set literal is non-empty with syntactically flat elements.
     (`typeOf_sound_partial`, the first fragment `Cedar.InFragment` for both modes, is kept; it needs `SchemaWF` only.)
-NOT proved: PERMISSIVE typing of an `if` / set literal that joins record, set or entity types, and of the empty set literal —
-there the static types contain entity-type unions (`lub` of `User` and `Group`) and `Set<Never>`, which the invariant
-`CedarType.mono` of the proofs excludes; a slot in an environment that has no type for it (Rust types it `AnyEntity`; such a
-slot does not occur: `link_request_env` gives every slot of the policy a type; see `SlotsBound` in the full statement);
+PROVED (3), PERMISSIVE MODE WITH NON-FLAT JOINS: `typeOf_sound_permissive_partial` — the statement for `m := .permissive` on
+    `InFragmentP env` (Lemmas/TypecheckPSound.lean): the fragment of (2) closed under
+      * `if` typechecked in both branches with ARBITRARY branch types, joined by the permissive least upper bound — a union of
+        entity types (`User ⊔ Group`), `AnyEntity`, a record join (width / depth subtyping, dropped attributes, open records) —
+        where the `then` branch is a literal, `principal`, `action`, `resource`, a slot or a flat expression (`ndBase`);
+      * set literals of such elements with arbitrary element types (`[principal, resource]`) and `[]` (typed `Set<Never>`);
+      * `==` (typed Bool, or False on disjoint unions), `contains` `containsAll` `containsAny` `isEmpty` `&&` `||` `!` over these.
+    The proof invariant there is "the static type is not `Never`" instead of `mono`.
+  `instance_of_lub` (the subtyping lemma, both modes): every value of either argument of `lub m` is a value of the bound;
+    `InstanceOfType` already interprets every type only permissive mode produces and was not extended.  The left half needs
+    distinct record keys inside the left type (`ndTy`): `lubAttrsPermissive` drops entries, `Attrs.find?` finds the first one.
+  Each permissive-only rule is also shown sound on its own for arbitrary operand types (Lemmas/TypecheckPRules.lean:
+    `permissive_ite_join_sound`, `permissive_set_literal_inst`, `typesDisjoint_sound`, `is_union_sound`).
+  Policy level: `permissive_validation_sound_partial`, `permissive_validation_sound_static_partial`,
+    `impossible_policy_never_satisfied_static_permissive`; examples `exJoinEq`, `exSetMixed`, `exPermissivePolicy` are accepted
+    by permissive mode, rejected by strict mode, and evaluate to booleans on the conformant `ex2World`.
+  No permissive typing rule of the model was found unsound.
+NOT proved (`PermissiveSoundFull`, a `def … : Prop`, is the full permissive statement): `has` / `.` / `hasTag` / `getTag` / `in` /
+`is` / `<` applied to an operand whose type is an entity-type union or a joined record type (for example
+`(if c then principal else resource).name` — needs `lubAttrs` of a union against the store), joins whose `then` branch is an
+attribute access, a record literal or itself a non-flat join (needs "typeOf yields distinct record keys", which needs that of
+the schema's types); a slot in an environment that has no type for it (Rust types it `AnyEntity`; such a slot does not occur:
+`link_request_env` gives every slot of the policy a type; see `SlotsBound` in the full statement);
 record literals with duplicate keys (not representable in Rust).  These are covered by the differential run against Rust
 and by the implementation-level soundness search of harness/src/c03.rs only.
 `strict_implies_permissive` (full statement: a `def … : Prop`) is PROVED as `strict_implies_permissive_strict` — with the
@@ -661,5 +681,174 @@ example : checkEnv .strict ex2Schema ex2Env (.binaryApp .mem (.var .action) (.li
 example : checkEnv .strict ex2Schema ex2Env (.like (.binaryApp .getTag principal ex2Team) [.star]) = some .fail := by decide +kernel
 example : checkEnv .strict ex2Schema ex2Env (.unaryApp .isEmpty (.set [.lit (.int 1), .lit (.string "x")])) = some .fail := by
   decide +kernel
+
+/-! ### PERMISSIVE mode: non-flat joins (entity-type unions, record joins, `Set<Never>`) -/
+
+/-- FULL STATEMENT for permissive mode (a `def … : Prop`; proved on `InFragmentP` only, see `typeOf_sound_permissive_partial`):
+`typeOf_sound` with `m := .permissive` for every expression with distinct record keys and linked slots. -/
+def PermissiveSoundFull : Prop :=
+  ∀ (s : Schema) (env : RequestEnv) (w : World),
+    SchemaWF2 s → EnvMatches s env w.q → ConformsRequest s w.q → StoreConforms s w.es → ActionsPresent s w.es →
+    SlotsBound env w.sl →
+    ∀ (e : Expr) (caps : Capabilities) (τ : CedarType) (c' : Capabilities), RecordKeysDistinct e = true →
+      SlotsLinked env e = true →
+      typeOf .permissive s env e caps = .ok (τ, c') → CapsHold w caps →
+      TySound w e τ c' ∧ (τ = .bool .tt → CapsHold w c')
+
+/-- SUBTYPING LEMMA (both modes): every value of either argument of `lub m` is a value of the least upper bound — for the
+permissive bound too: unions of entity types, `AnyEntity`, records joined with width / depth subtyping (dropped attributes,
+open records), `Set<Never>`.  `InstanceOfType` needed no extension.  The left half needs distinct record keys inside the
+left type (`ndTy`; `Attributes` is a `BTreeMap` in Rust): with a duplicate key the model's bound may keep the second entry. -/
+theorem instance_of_lub (m : ValidationMode) {v : Value} {τ1 τ2 τ : CedarType} (h : lub m τ1 τ2 = some τ) :
+    (ndTy τ1 = true → InstanceOfType v τ1 → InstanceOfType v τ) ∧ (InstanceOfType v τ2 → InstanceOfType v τ) :=
+  ⟨fun hnd hi => instance_of_lub_l hnd h hi, fun hi => instance_of_lub_r h hi⟩
+
+/-- the permissive bound of `User` and `Group` is their union, and `alice` is a value of it -/
+example : InstanceOfType (.prim (.entityUID ⟨"User", "alice"⟩)) (.entity ["Group", "User"]) :=
+  (instance_of_lub .permissive (τ1 := .entity ["User"]) (τ2 := .entity ["Group"]) rfl).1 rfl
+    (.entity _ _ (by simp))
+
+/-- `typeOf_sound` in PERMISSIVE mode for the expressions of `InFragmentP env` (Lemmas/TypecheckPSound.lean): the
+permissive fragment of `typeOf_sound_partialM` closed under
+  * `if` typechecked in both branches with ARBITRARY branch types (joined by the permissive least upper bound: an
+    entity-type union, a record join, …), the `then` branch being of an evident kind (`ndBase`: a literal, `principal`,
+    `action`, `resource`, a slot, or a flat expression);
+  * set literals of such elements with ARBITRARY element types (`[principal, resource]`), and `[]` (typed `Set<Never>`);
+  * `==`, `contains`, `containsAll`, `containsAny`, `isEmpty`, `&&`, `||`, `!` over operands of the fragment. -/
+theorem typeOf_sound_permissive_partial (s : Schema) (env : RequestEnv) (w : World)
+    (hWF : SchemaWF2 s) (henv : EnvMatches s env w.q) (hreq : ConformsRequest s w.q) (hst : StoreConforms s w.es)
+    (hact : ActionsPresent s w.es) (hsl : SlotsMatch env w.sl)
+    (e : Expr) (hf : InFragmentP env e = true) (caps : Capabilities) (τ : CedarType) (c' : Capabilities)
+    (h : typeOf .permissive s env e caps = .ok (τ, c')) (hc : CapsHold w caps) :
+    TySound w e τ c' ∧ (τ = .bool .tt → CapsHold w c') :=
+  (soundP hWF henv e hf caps τ c' h).2 ⟨hreq, hst, hsl, hact⟩ hc
+
+/-- Corollary (permissive): a condition the permissive typechecker does not reject in the environment of a conformant
+request evaluates to a boolean, or fails with a permitted error. -/
+theorem accepted_boolean_or_permitted_errorP (s : Schema) (env : RequestEnv) (w : World)
+    (hWF : SchemaWF2 s) (henv : EnvMatches s env w.q) (hreq : ConformsRequest s w.q) (hst : StoreConforms s w.es)
+    (hact : ActionsPresent s w.es) (hsl : SlotsMatch env w.sl)
+    (e : Expr) (hf : InFragmentP env e = true) (v : Verdict) (hv : checkEnv .permissive s env e = some v) (hne : v ≠ .fail) :
+    (∃ b, w.eval e = .ok (.prim (.bool b))) ∨ (∃ err, w.eval e = .error err ∧ Permitted err) := by
+  unfold checkEnv at hv
+  cases hE : expectOneOf (typeOf .permissive s env e []) [boolT] with
+  | error err =>
+    rw [hE] at hv
+    cases err <;> simp at hv
+    exact (hne hv.symm).elim
+  | ok p =>
+    obtain ⟨τ, c'⟩ := p
+    obtain ⟨ht, hs⟩ := expectOneOf_ok hE
+    have hs' := (typeOf_sound_permissive_partial s env w hWF henv hreq hst hact hsl e hf [] τ c' ht (capsHold_nil w)).1
+    rcases hs'.bool_cases (subtype_bool hs) with he | ⟨b, hb, _, _⟩
+    · exact Or.inr he
+    · exact Or.inl ⟨b, hb⟩
+
+/-- Corollary (permissive): a condition typed `False` in the request's environment is never satisfied. -/
+theorem typed_false_never_satisfiedP (s : Schema) (env : RequestEnv) (w : World)
+    (hWF : SchemaWF2 s) (henv : EnvMatches s env w.q) (hreq : ConformsRequest s w.q) (hst : StoreConforms s w.es)
+    (hact : ActionsPresent s w.es) (hsl : SlotsMatch env w.sl)
+    (e : Expr) (hf : InFragmentP env e = true) (hv : checkEnv .permissive s env e = some .ff) :
+    w.eval e ≠ .ok (.prim (.bool true)) := by
+  unfold checkEnv at hv
+  cases hE : expectOneOf (typeOf .permissive s env e []) [boolT] with
+  | error err => rw [hE] at hv; cases err <;> simp at hv
+  | ok p =>
+    obtain ⟨τ, c'⟩ := p
+    rw [hE] at hv
+    obtain ⟨ht, hs⟩ := expectOneOf_ok hE
+    have hτ : τ = .bool .ff := by
+      rcases subtype_bool hs with rfl | ⟨bt, rfl⟩
+      · simp at hv
+      · cases bt <;> simp at hv
+        rfl
+    subst hτ
+    have hs' := (typeOf_sound_permissive_partial s env w hWF henv hreq hst hact hsl e hf [] _ c' ht (capsHold_nil w)).1
+    intro htrue
+    rcases hs' with ⟨err, he, _⟩ | ⟨v, hv', hi, _⟩
+    · rw [htrue] at he; cases he
+    · rw [htrue] at hv'; cases hv'; cases hi
+
+/-- POLICY LEVEL, permissive (policies and templates): if the permissive typechecker accepts the condition in every request
+environment, then in every world whose request environment is one of them evaluation yields a boolean or fails with an
+entity / overflow / extension error only. -/
+theorem permissive_validation_sound_partial (s : Schema) (pu ru : SlotUse) (cond : Expr) (vs : List (RequestEnv × Verdict))
+    (w : World) (env : RequestEnv)
+    (hWF : SchemaWF2 s) (hmem : env ∈ s.envs pu ru) (henv : EnvMatches s env w.q) (hreq : ConformsRequest s w.q)
+    (hst : StoreConforms s w.es) (hact : ActionsPresent s w.es) (hsl : SlotsMatch env w.sl)
+    (hf : InFragmentP env cond = true)
+    (hcp : checkPolicy .permissive s pu ru cond = some vs) (hacc : accepted vs = true) :
+    (∃ b, w.eval cond = .ok (.prim (.bool b))) ∨ (∃ err, w.eval cond = .error err ∧ Permitted err) := by
+  obtain ⟨v, hv, hvm⟩ := checkPolicy_mem hcp hmem
+  have hne : v ≠ .fail := by
+    have := List.all_eq_true.mp hacc _ hvm
+    simpa using this
+  exact accepted_boolean_or_permitted_errorP s env w hWF henv hreq hst hact hsl cond hf v hv hne
+
+/-- POLICY LEVEL, permissive (static policies): on EVERY conformant request and store. -/
+theorem permissive_validation_sound_static_partial (s : Schema) (cond : Expr) (vs : List (RequestEnv × Verdict)) (w : World)
+    (hWF : SchemaWF2 s) (hreq : ConformsRequest s w.q) (hst : StoreConforms s w.es) (hact : ActionsPresent s w.es)
+    (hf : ∀ env, InFragmentP env cond = true)
+    (hcp : checkPolicy .permissive s .absent .absent cond = some vs) (hacc : accepted vs = true) :
+    (∃ b, w.eval cond = .ok (.prim (.bool b))) ∨ (∃ err, w.eval cond = .error err ∧ Permitted err) := by
+  obtain ⟨env, hmem, henv, hp, hr⟩ := conformant_request_env hreq
+  have hsl : SlotsMatch env w.sl := ⟨fun t ht => (by rw [hp] at ht; cases ht), fun t ht => (by rw [hr] at ht; cases ht)⟩
+  exact permissive_validation_sound_partial s .absent .absent cond vs w env hWF hmem henv hreq hst hact hsl (hf env) hcp hacc
+
+/-- POLICY LEVEL, permissive: a static policy flagged impossible is satisfied by no conformant request -/
+theorem impossible_policy_never_satisfied_static_permissive (s : Schema) (cond : Expr) (vs : List (RequestEnv × Verdict))
+    (w : World) (hWF : SchemaWF2 s) (hreq : ConformsRequest s w.q) (hst : StoreConforms s w.es) (hact : ActionsPresent s w.es)
+    (hf : ∀ env, InFragmentP env cond = true)
+    (hcp : checkPolicy .permissive s .absent .absent cond = some vs) (himp : impossible vs = true) :
+    w.eval cond ≠ .ok (.prim (.bool true)) := by
+  obtain ⟨env, hmem, henv, hp, hr⟩ := conformant_request_env hreq
+  have hsl : SlotsMatch env w.sl := ⟨fun t ht => (by rw [hp] at ht; cases ht), fun t ht => (by rw [hr] at ht; cases ht)⟩
+  obtain ⟨v, hv, hvm⟩ := checkPolicy_mem hcp hmem
+  have hff : v = .ff := by
+    have := List.all_eq_true.mp himp _ hvm
+    simpa using this
+  subst hff
+  exact typed_false_never_satisfiedP s env w hWF henv hreq hst hact hsl cond (hf env) hv
+
+/-! #### non-vacuity: policies that PERMISSIVE mode accepts and STRICT mode rejects -/
+
+def evalsToBool (w : World) (e : Expr) : Option Bool :=
+  match w.eval e with
+  | .ok (.prim (.bool b)) => some b
+  | _ => none
+
+/-- `(if principal has age then principal else resource) == resource`: the `if` joins `User` and `Group` -/
+def exJoinEq : Expr := .binaryApp .eq (.ite (.hasAttr principal "age") principal (.var .resource)) (.var .resource)
+/-- `[principal, resource].contains(principal)`: a set literal of two entity types -/
+def exSetMixed : Expr := .binaryApp .contains (.set [principal, .var .resource]) principal
+/-- `principal in resource && ((if … ) == resource || [principal, resource].contains(principal)) && [].isEmpty()` -/
+def exPermissivePolicy : Expr :=
+  .and (.binaryApp .mem principal (.var .resource))
+    (.and (.or exJoinEq exSetMixed) (.unaryApp .isEmpty (.set [])))
+
+example : checkEnv .strict ex2Schema ex2Env exJoinEq = some .fail := by decide +kernel
+example : checkEnv .permissive ex2Schema ex2Env exJoinEq = some .bool := by decide +kernel
+example : checkEnv .strict ex2Schema ex2Env exSetMixed = some .fail := by decide +kernel
+example : checkEnv .permissive ex2Schema ex2Env exSetMixed = some .bool := by decide +kernel
+example : checkEnv .strict ex2Schema ex2Env exPermissivePolicy = some .fail := by decide +kernel
+example : checkEnv .permissive ex2Schema ex2Env exPermissivePolicy = some .bool := by decide +kernel
+/-- outside the old permissive fragment, inside the new one -/
+example : InFragmentM .permissive ex2Env exJoinEq = false ∧ InFragmentM .permissive ex2Env exSetMixed = false ∧
+    InFragmentP ex2Env exJoinEq = true ∧ InFragmentP ex2Env exSetMixed = true ∧ InFragmentP ex2Env exPermissivePolicy = true := by
+  decide +kernel
+/-- the evaluation results on the conformant request / store `ex2World` are booleans -/
+example : evalsToBool ex2World exJoinEq = some true := by decide +kernel
+example : evalsToBool ex2World exSetMixed = some true := by decide +kernel
+example : evalsToBool ex2World exPermissivePolicy = some true := by decide +kernel
+/-- … as the theorem says, all its premises instantiated -/
+example : (∃ b, ex2World.eval exPermissivePolicy = .ok (.prim (.bool b))) ∨
+    (∃ err, ex2World.eval exPermissivePolicy = .error err ∧ Permitted err) :=
+  accepted_boolean_or_permitted_errorP ex2Schema ex2Env ex2World ex2_schemaWF ex2_envMatches ex2_request ex2_store
+    ex2_actions ex2_slots exPermissivePolicy (by decide +kernel) .bool (by decide +kernel) (by decide)
+/-- policy level, every environment of the schema -/
+example : (∃ b, ex2World.eval exJoinEq = .ok (.prim (.bool b))) ∨ (∃ err, ex2World.eval exJoinEq = .error err ∧ Permitted err) :=
+  permissive_validation_sound_static_partial ex2Schema exJoinEq
+    [(⟨"User", ⟨"Action", "view"⟩, "Group", ex2View.context, none, none⟩, .bool)] ex2World ex2_schemaWF ex2_request ex2_store ex2_actions
+    (fun _ => rfl) rfl rfl
 
 end Cedar.C03
